@@ -334,9 +334,12 @@ def model_verdict(chk, loc, scale, p):
     else:
         eig = [[] for _ in range(scale.shape[0])]
     t = chk.ask(f"c20.gmm_check {enc_gmm(loc, scale, p)} {len(eig)} " + " ".join(enc_v(e) for e in eig))
-    if t.next() == "N":
-        return None
-    return t.int(), t.int()
+    gen = None if t.next() == "N" else (t.int(), t.int())       # regenerated from the source (Gen/DataGenRules.v)
+    hand = None if t.next() == "N" else (t.int(), t.int())      # hand-written model the theorems are proved about
+    if gen != hand:
+        chk.fail("draw_gmm:regenerated-vs-model", f"the validation regenerated from the source gives {gen}, the proved hand-written model {hand}",
+                 {"fn": "draw_gmm", "loc": np.asarray(loc).tolist(), "scale": np.asarray(scale).tolist(), "pvals": np.asarray(p).tolist()})
+    return gen
 
 
 # ------------------------------------------------------------------ streams
@@ -359,6 +362,10 @@ def stream_gmm(chk, i, rng):
     t = chk.ask(f"c20.gmm {n} {enc_gmm(loc, scale, p)} {enc_draws(rs.log)}")
     mcalls = t.list(lambda: rd_call(t))
     run = rd_run(t)
+    hcalls = t.list(lambda: rd_call(t))
+    hrun = rd_run(t)
+    if mcalls != hcalls or run != hrun:
+        chk.fail("draw_gmm:regenerated-vs-model", "the draw protocol regenerated from the source differs from the proved hand-written model on these draws", replay)
     bad = calls_match(mcalls, rs.log)
     if bad:
         chk.fail("draw_gmm:requests", "requests to the random generator differ from the model's: " + bad, replay)
@@ -405,7 +412,7 @@ def invalid_case(rng, j):
     p = np.ones(K) / K
     classes = ["cov-count", "p-count", "nonsquare", "scale-ndim", "p-zero", "p-negative", "p-sum-far", "p-sum-isclose", "p-sum-choice",
                "not-psd", "nonsymmetric", "all-zero", "var-zero", "var-negative", "one-component", "nan", "p-2d", "scale-1d-3d", "scale-1d-wide",
-               "ragged", "p-len-short"]
+               "ragged", "p-len-short", "p-negative-unnormalised", "count-and-square"]
     c = classes[j % len(classes)]
     dom = True
     k = int(rng.integers(0, K))
@@ -432,6 +439,13 @@ def invalid_case(rng, j):
         p = np.ones(K) / K
         p[k] = -p[k]
         p[(k + 1) % K] += 2 / K
+    elif c == "p-negative-unnormalised":       # two tests fail: the first one in source order must fire
+        p = np.ones(K) / K
+        p[k] = -p[k]
+    elif c == "count-and-square":
+        d = max(d, 2)
+        loc = np.round(rng.normal(size=(K, d)), 3)
+        scale = np.ones((K + 1, d, d + 1))
     elif c == "p-sum-far":
         p = p * float(rng.choice([0.5, 0.9, 1.1, 2.0, 0.999]))
     elif c == "p-sum-isclose":
@@ -590,6 +604,10 @@ def stream_student(chk, i, rng):
         bad = np.eye(d + 1) if rng.random() < 0.5 else np.ones((d, d + 1))
         t = chk.ask(f"c20.student {n} {enc_v(loc)} {enc_m(bad)} {hx(df)} 0")
         mok = t.bool()
+        t.list(lambda: rd_call(t))
+        t.next()
+        if t.bool() != mok:
+            chk.fail("student:regenerated-vs-model", "regenerated and hand-written shape tests differ", replay)
         try:
             multivariate_student_t(n, loc, bad, df, seed)
             chk.fail("student:shape-accepted", "a scale matrix whose shape does not match the location is accepted", replay, layer="L3")
@@ -607,6 +625,11 @@ def stream_student(chk, i, rng):
     mok = t.bool()
     mcalls = t.list(lambda: rd_call(t))
     run = rd_mat(t) if t.next() == "S" else None
+    hok = t.bool()
+    hcalls = t.list(lambda: rd_call(t))
+    hrun = rd_mat(t) if t.next() == "S" else None
+    if (mok, mcalls, run) != (hok, hcalls, hrun):
+        chk.fail("student:regenerated-vs-model", "multivariate_student_t regenerated from the source differs from the proved hand-written model on these draws", replay)
     if not mok:
         chk.fail("student:verdict", "the model rejects a valid location/scale pair", replay)
     bad = calls_match(mcalls, rs.log)
@@ -870,7 +893,7 @@ def stream_stats(chk, i, rng):
 
 
 STREAMS = {"regression": (stream_regression, len(REGRESSION), len(REGRESSION)),
-           "gmm": (stream_gmm, 600, 6000), "invalid": (stream_invalid, 420, 4200), "student": (stream_student, 144, 1500),
+           "gmm": (stream_gmm, 600, 6000), "invalid": (stream_invalid, 460, 4600), "student": (stream_student, 144, 1500),
            "gstm": (stream_gstm, 160, 1600), "celeux": (stream_celeux, 120, 1200), "stats": (stream_stats, 24, 180)}
 
 
@@ -878,7 +901,9 @@ def main():
     chk = Check("C20")
     out = chk.build()
     chk.proofs()
-    tie = "unavailable (translator failed; relying on the correspondence)" if "TRANSLATOR-FAIL translator/tr_dataconstants.py" in out else "regenerated from the source on this run"
+    def tie_of(name):
+        return "unavailable (translator failed closed; the previous Gen file stays; relying on the correspondence)" if f"TRANSLATOR-FAIL translator/{name}.py" in out \
+            else "regenerated from the source on this run"
     if chk.replay_path:
         rp = json.load(open(chk.replay_path))
         st, case = rp["input"].get("stream"), rp["input"].get("case")
@@ -897,11 +922,11 @@ def main():
     chk.notes.append(f"largest |z| over all statistical tests of this run: {getattr(chk, 'notes_worst', 0.0):.2f} (acceptance band 6)")
     chk.finish(rule="streams: draw_gmm on random valid descriptions (K 2..6, d 1..4, n<=34 quick / <90 thorough; identity, diagonal, full and singular rank-one "
                     "covariances; uniform, Dirichlet, dyadic and within-tolerance proportions) with a recording RandomState: requests and outputs vs the extracted model, "
-                    "row-source / request-parameter / seed oracles; 21 classes of invalid descriptions (raise site vs the model, must be a ValueError/TypeError); "
+                    "row-source / request-parameter / seed oracles; 23 classes of invalid descriptions (raise site vs the model, must be a ValueError/TypeError); "
                     "regression cases of the repaired defects; multivariate_student_t, gstm, celeux_one, celeux_two likewise against the model and the hand-written documented "
                     "design; large-sample 6-sigma moment/quantile/regression tests. non-trivial = a mixture run whose labels name at least two components, "
                     "an invalid class instance, or a statistical case; distinct = distinct (generator, sizes, parameters, seed) signature",
-               extra={"regenerated_ties": {"Gen/DataConstants.v": tie}})
+               extra={"regenerated_ties": {"Gen/DataConstants.v": tie_of("tr_dataconstants"), "Gen/DataGenRules.v": tie_of("tr_datagen")}})
 
 
 if __name__ == "__main__":
